@@ -28,6 +28,8 @@ def is_eps(e):
 
 def classify(op, a):
     """(field or None, symmetric?) for a holding comparison `a op EPS`"""
+    from lib import ops_to_bins
+    a = ops_to_bins(a)
     a = a.strip() if a.kind != 'call' else a
     sym = False
     inner = a
@@ -304,9 +306,16 @@ def run(ctx):
         if not defs:
             ctx.fail(R, body, 'result', 'eq never returns a non-false value')
             continue
+        from lib import expand_conditions
+        defs2 = []
         for bb, kind, payload in defs:
+            # named booleans (`let moved = !same_x || !same_y; if moved { return false }`) are unfolded into the
+            # comparisons that made them; every unfolded variant is one way of returning true
+            for cv in expand_conditions(body, path_conditions(body, bb)):
+                defs2.append((bb, kind, payload, cv))
+        for bb, kind, payload, cv in defs2:
             facts = []
-            for c in path_conditions(body, bb):
+            for c in cv:
                 cm = c.cmp()
                 if cm:
                     facts.append((cm, c.ln))
